@@ -71,7 +71,7 @@ impl<R> BufReader<R> {
     pub fn with_capacity(cap: usize, reader: R) -> Self {
         Self {
             reader,
-            buf: Buffer::with_capacity(cap),
+            buf: Buffer::with_capacity(cap.max(1)),
         }
     }
 }
